@@ -401,6 +401,8 @@ def r7_plain_store_size_matches_data(cx):
     acc = {}
     for i in loop:
         for st in b.blocks[i]["s"]:
+            if st["k"] == "assign" and not st["lhs"].get("p") and st["rv"]["k"] == "bin" and st["rv"]["op"].startswith("Add") and op_local(st["rv"]["a"]) == st["lhs"]["l"]:
+                acc.setdefault(st["lhs"]["l"], set()).add(i)     # release profile: `acc = Add(acc, x)` without the overflow check
             if st["k"] == "assign" and not st["lhs"].get("p") and st["rv"]["k"] == "use":
                 src = st["rv"]["op"].get("mv") or st["rv"]["op"].get("cp") or {}
                 for d in b.defs().get(src.get("l"), []):
@@ -444,7 +446,20 @@ def r7_plain_store_size_matches_data(cx):
           "the key remembered for the skip test is updated exactly in the iterations that write the value")
 
 
+def r8_cluster_pointers_are_tail_offsets(cx):
+    """'offsets, tables, cluster encoding': an entry of the cluster pointer table is the position of the cluster's
+    tail = the stream position right after its data, with the stored size = bytes between the two positions
+    (= C01-R6, evaluated under this property)"""
+    import c01
+    before = len(cx.obs)
+    c01.r6_data_location(cx)
+    for o in cx.obs[before:]:
+        o.key = "R8/" + o.key.split("/", 1)[1]
+        o.rule = "R8"
+
+
 RULES = [
+    ("R8", r8_cluster_pointers_are_tail_offsets, 3),
     ("R7", r7_plain_store_size_matches_data, 2),
     ("R1", r1_layouts, 80),
     ("R2", r2_encodings, 18),
